@@ -220,9 +220,12 @@ public:
         if (ec == asio::error::no_recovery)
             _svc.cancel();
 
-        // errors, if any, are propagated to ops
+        // errors, if any, are propagated to ops; a handler invoked here may
+        // cancel the client, the remaining ops are then aborted as well
         for (auto& op : write_queue)
-            op.complete(ec);
+            op.complete(
+                !ec && !_svc.is_open() ? asio::error::operation_aborted : ec
+            );
 
         if (
             ec == asio::error::operation_aborted ||
